@@ -16,7 +16,7 @@ META = {
     ),
     "anchors": ["abelian_core._fuse_blocks_via_insert", "abelian_core._fuse_blocks_via_concat", "abelian_core.AbelianArray.to_dense", "abelian_core.AbelianArray.fill_missing_blocks", "abelian_core._tensordot_via_fused", "linalg._get_qr_fn", "utils.get_random_fill_fn"],
     "floors": {
-        "quick": {"evaluations": 20000, "distinct_nontrivial": 3000, "tables": {"dtype/float32": 3000, "dtype/complex64": 3000, "dtype/complex128": 3000, "zero-creation/fuse-insert": 300, "zero-creation/fuse-concat": 300, "zero-creation/to_dense": 300, "zero-creation/fill_missing_blocks": 300, "zero-creation/fused-contraction": 200, "twin-compared": 8000, "mixed-contraction/terms>=32": 400, "twin-compared/mixed-blocks": 10000, "large/complex64:zero-imaginary-part": 100, "large/complex128:zero-imaginary-part": 100}},
+        "quick": {"evaluations": 20000, "distinct_nontrivial": 3000, "tables": {"dtype/float32": 3000, "dtype/complex64": 3000, "dtype/complex128": 3000, "zero-creation/fuse-insert": 300, "zero-creation/fuse-concat": 300, "zero-creation/to_dense": 300, "zero-creation/fill_missing_blocks": 300, "zero-creation/fused-contraction": 200, "twin-compared": 8000, "mixed-contraction/terms>=32": 400, "twin-compared/mixed-blocks": 10000, "large/complex64:zero-imaginary-part": 60, "large/complex128:zero-imaginary-part": 60}},
         "thorough": {"evaluations": 500000, "distinct_nontrivial": 60000},
     },
     "wall": {"quick": 900, "thorough": 1700},
